@@ -988,7 +988,8 @@ class UTPM(Ring, RawAlgorithmsMixIn):
     @classmethod
     def imag(cls, x):
         """ UTPM equivalent to numpy.imag """
-        return cls(x.data.imag)
+        # a copy, not a view: the adjoint of imag(x) is not a view of the adjoint of x (sign)
+        return cls(x.data.imag.copy())
 
     @classmethod
     def pb_imag(cls, ybar, x, y, out=None):
@@ -998,7 +999,7 @@ class UTPM(Ring, RawAlgorithmsMixIn):
 
         else:
             xbar, = out
-        xbar.data.imag = -ybar.data
+        xbar.data.imag -= ybar.data
 
 
     @classmethod
